@@ -903,7 +903,7 @@ func runSeq(p Profile, seed uint64, cas int) *SeqRes {
 		if p.DeadProbe && rng.Intn(12) == 0 {
 			s.deadProbe()
 		}
-		if (p.DeadProbe || p.DeleteAll) && rng.Intn(40) == 0 {
+		if (p.DeadProbe || p.DeleteAll || p.FsckEvery > 0 || p.WalkEvery > 0) && rng.Intn(40) == 0 {
 			s.dirMoveScript()
 		}
 		if p.FsckEvery > 0 && s.step%p.FsckEvery == 0 {
@@ -1241,10 +1241,14 @@ func (s *Sess) dirMoveScript() {
 	if p == nil || q == nil || c == nil || mk(OpCreate, c, "f") == nil {
 		return
 	}
+	if s.rng.Intn(2) == 0 {
+		mk(OpMkdir, p, "c") // the move replaces an existing empty directory
+	}
 	if s.exec(&Op{K: OpRename, H: q, Name: "c", H2: p, Name2: "c"}).Stat != stOK {
 		return
 	}
 	s.exec(&Op{K: OpLookup, H: c, Name: ".."})
+	s.exec(&Op{K: OpReaddirplus, H: c, Count: 4096, Dircount: 4096})
 	if s.rng.Intn(2) == 0 {
 		s.exec(&Op{K: OpRename, H: p, Name: "c", H2: q, Name2: "c2"})
 		s.exec(&Op{K: OpRename, H: q, Name: "c2", H2: p, Name2: "c"})
